@@ -32,10 +32,13 @@ AllBases   == {BaseLen(h, 123, cz, fz) : h \in {-1, 0, 6423}, cz \in BOOLEAN, fz
 FewBases   == {BaseLen(6423, 123, TRUE, TRUE), BaseLen(-1, 0, TRUE, TRUE), BaseLen(0, 0, FALSE, FALSE)}
 BaseVariants == IF ManyBases THEN AllBases ELSE FewBases
 
-K1 == [name |-> "k1", chunks |-> 1]
-K2 == [name |-> "k1", chunks |-> 2]
-K3 == [name |-> "k2", chunks |-> 1]
-KeySeqs == {<<>>, <<K1>>, <<K2>>, <<K3>>, <<K1, K2>>, <<K1, K3>>, <<K2, K3>>, <<K1, K2, K3>>}
+K1 == [name |-> "k1", chunks |-> 1, perm |-> 7]
+K2 == [name |-> "k1", chunks |-> 2, perm |-> 5]
+K3 == [name |-> "k2", chunks |-> 1, perm |-> 3]
+K1r == [name |-> "k1", chunks |-> 1, perm |-> 1]      \* the same key as K1, declared read-only by another action
+K0 == [name |-> "$sponsor-balance", chunks |-> 1, perm |-> 1]                              \* an action declaring the sponsor's own balance key
+KeySeqs == {<<>>, <<K1>>, <<K2>>, <<K3>>, <<K1, K2>>, <<K1, K3>>, <<K2, K3>>, <<K1, K2, K3>>,
+            <<K1r>>, <<K1r, K3>>, <<K0>>, <<K0, K1>>, <<K0, K2, K3>>}
 KeyActions == [size : {1}, keys : KeySeqs, compute : {0, 2}]
 
 Init ==
